@@ -8,9 +8,9 @@ are sequences of buffer writes; factgen extracts them as `List W` and the model 
 namespace Vflow
 
 inductive W where
-  | lit (s : String)          -- b.WriteString("…") / b.WriteByte('…')
-  | num (field : String)      -- strconv.FormatInt(int64(x.Field), 10)
-  | ip (field : String)       -- PutUint32(ip, r.Field); ip.String()
+  | lit (b : Bytes)           -- b.WriteString("…") / b.WriteByte('…'), as octets
+  | num (field : Nat)         -- strconv.FormatInt(int64(x.Field), 10); field = index in the structure's read layout
+  | ip (field : Nat)          -- PutUint32(ip, r.Field); ip.String()
   | agent                     -- m.AgentID
   | unrecognised (go : String)
 deriving Repr, DecidableEq
